@@ -105,6 +105,10 @@ void Ctx::fail(uint32_t cls, const char *sig, const char *fmt, ...) {
     failv(cls, sig, fmt, ap);
 }
 
+// reports that were raised but never polled (the case crashed or was abandoned first) belong to
+// the case that just ended: they must not be attributed to the next one
+void san_sync() { g_san_seen = g_san_reports; }
+
 void Ctx::check_san(const char *where) {
     if (g_san_reports == g_san_seen) return;
     int n = g_san_reports - g_san_seen;
